@@ -14,6 +14,17 @@ def run(prog, rec, tier):
     H.buffer_sim(tier)
     from . import term_rules
     term_rules.hash_compress(prog, rec, tier)
+    # digest(m) is a function of m alone only if hasher and buffer objects carry no state shared between objects:
+    # every mutable object with static storage in the hash units must be write-only (R15.d use classification)
+    from . import static_rules
+    before = list(rec.obls)
+    static_rules.run_statics(prog, rec)
+    new = [o for o in rec.obls if o not in before]
+    mine = [o for o in new if str(o.where).startswith('kernel/hash/')]
+    rec.obls = before + mine
+    rec.instances.pop('R15.d mutable statics', None)
+    rec.ob('R07.s', 'R07.s@kernel/hash::objects-share-no-state', all(o.ok is not False for o in mine), 'kernel/hash',
+           'mutable objects with static storage declared in the hash units: %d%s' % (len(mine), '' if all(o.ok is not False for o in mine) else ' - read by hashing code: two hasher/buffer objects alive at once influence each other'))
     rec.extra['explanation'] = (
         'digest(m) = output(fold compress over pad(m)) is decided piecewise. (1) Tier 2: each one-block compress function, interpreted over '
         'hash-consed 32-bit word terms (AC sums mod 2^32, rotations, truth-table nodes for bitwise functions) with free chaining words and 64 '
